@@ -865,6 +865,10 @@ func (d *Driver) TokString(tok M) string {
 		return d.forgeJWT(storeID, sub, Issuer, modelstore.GenKey("foreign-op", d.Store.Signing.Alg), false)
 	case "jwtNone":
 		return d.forgeJWT(storeID, sub, Issuer, nil, true)
+	case "jwtUnknownKid":
+		return d.forgeJWTKid(storeID, sub, Issuer, modelstore.GenKey("foreign-op", d.Store.Signing.Alg), "kid-rotated-out-long-ago")
+	case "jwtNoKid":
+		return d.forgeJWTKid(storeID, sub, Issuer, modelstore.GenKey("foreign-op", d.Store.Signing.Alg), "")
 	}
 	return "garbage-" + id
 }
@@ -877,7 +881,17 @@ func (d *Driver) forgeJWT(jti, sub, iss string, key *modelstore.SignKey, algNone
 		h := base64.RawURLEncoding.EncodeToString([]byte(`{"alg":"none","typ":"JWT"}`))
 		return h + "." + base64.RawURLEncoding.EncodeToString(b) + "."
 	}
-	kid := d.Store.Signing.KID
+	return d.signForged(b, key, d.Store.Signing.KID)
+}
+
+func (d *Driver) forgeJWTKid(jti, sub, iss string, key *modelstore.SignKey, kid string) string {
+	claims := M{"iss": iss, "sub": sub, "jti": jti, "aud": []string{"cw"}, "exp": time.Now().Add(time.Hour).Unix(),
+		"iat": time.Now().Add(-time.Minute).Unix(), "nbf": time.Now().Add(-time.Minute).Unix(), "client_id": "cw"}
+	b, _ := json.Marshal(claims)
+	return d.signForged(b, key, kid)
+}
+
+func (d *Driver) signForged(b []byte, key *modelstore.SignKey, kid string) string {
 	signer, err := jose.NewSigner(jose.SigningKey{Algorithm: key.Alg, Key: &jose.JSONWebKey{Key: key.Priv, KeyID: kid}}, (&jose.SignerOptions{}).WithType("JWT"))
 	must(err)
 	jws, err := signer.Sign(b)
